@@ -712,3 +712,10 @@ func funcValueOperands(ins ssa.Instruction) []*ssa.Function {
 	}
 	return out
 }
+
+// retVal: the value a Return gives for result i, seen through the result cells
+// that go/ssa introduces when the function has a defer.
+func retVal(ret *ssa.Return, i int) ssa.Value {
+	vals, _ := returnValues(ret)
+	return vals[i]
+}
